@@ -123,7 +123,7 @@ def optJ : Option String → Json
 
 def handleParam (case impl : Json) : Except String Json := do
   let np ← getNat case "np"
-  let cj ← case.getObjVal? "cfg"
+  let cj ← impl.getObjVal? "cfg"
   let c : Cfg := { awaitInside := ← getBool cj "awaitInside", startCheck := ← getBool cj "startCheck",
                    registerAlways := ← getBool cj "registerAlways" }
   let evs ← parseEvents (← getArr case "events")
@@ -156,7 +156,7 @@ def handleParam (case impl : Json) : Except String Json := do
   let hazards := revHaz.reverse
   -- on a hazard-free schedule the theorems promise the oracle holds on the model: say so if not
   return Json.mkObj [
-    ("model", Json.mkObj [("init", jObs modelInit), ("steps", Json.arr (modelSteps.map jObs).toArray),
+    ("model", Json.mkObj [("cfg", cj), ("init", jObs modelInit), ("steps", Json.arr (modelSteps.map jObs).toArray),
                           ("hazards", Json.arr (hazards.map Json.str).toArray)]),
     ("applicable", Json.bool true),
     ("checked_steps", toJson nImpl),
